@@ -1,5 +1,5 @@
 Require Extraction.
 Require Import ExtrOcamlBasic.
-From SCMO Require Import Lib.Val Model.C06.
-Definition run := run_C06.
+From SCMO Require Import Lib.Val Model.C06 Model.C06x.
+Definition run := run_C06x.
 Extraction "c06_model.ml" run.
